@@ -23,6 +23,8 @@ def cases(draw, tier):
     kind = draw(st.sampled_from(['line', 'rect', 'rect', 'periodic', 'tri', 'mixed', 'multipatch', 'rect3', 'simplex3', 'line', 'tri', 'periodic-small']))
     n = [draw(st.integers(1, 3)) for _ in range(3)]
     btype = draw(st.sampled_from(['std', 'std', 'spline', 'spline', 'spline', 'discont', 'bernstein', 'lagrange', 'legendre', 'bubble', 'h-std', 'th-std', 'h-spline', 'th-spline']))
+    if btype == 'bubble':      # simplex meshes only
+        kind = draw(st.sampled_from(['tri', 'tri', 'simplex3']))
     if kind == 'periodic-small':     # one to three elements around a periodic direction: only the bases with per-element (lagrange-type) structure are defined without self-overlap
         btype = draw(st.sampled_from(['lagrange', 'bernstein', 'lagrange', 'discont']))
     degree = draw(st.integers(0, 4))
@@ -33,7 +35,8 @@ def cases(draw, tier):
                   use_mult=draw(st.booleans()))
     return dict(kind=kind, n=n, btype=btype, degree=degree, hier=hier, spline=spline, periodic2=draw(st.booleans()),
                 parts=[draw(st.integers(0, 3)) for _ in range(12)] if draw(st.integers(0, 4)) == 0 else None, hknots=[draw(st.sampled_from([.5, 1., 1.5, 2.])) for _ in range(6)] if draw(st.booleans()) else None, refine=draw(st.integers(0, 4)) == 0, mask=draw(st.sampled_from([None, None, None, 'even', 'first'])),
-                trim=draw(st.sampled_from([None, None, None, [1., .5, 0.25, .35]])), pdeg=draw(st.integers(1, 3)))
+                trim=draw(st.sampled_from([None, None, None, [1., .5, 0.25, .35]])), pdeg=draw(st.integers(1, 3)),
+                subset=[draw(st.integers(0, 40)) for _ in range(draw(st.integers(1, 6)))] if draw(st.integers(0, 3 if btype != 'bubble' else 1)) == 0 else None)
 
 
 def make(case):
@@ -48,6 +51,12 @@ def make(case):
     info = dict(nontrivial=kind in ('tri', 'mixed', 'multipatch', 'simplex3'), levels=0)
     if case['refine'] and len(topo) <= 12:
         topo = topo.refined
+    if case.get('subset') and not btype.startswith(('h-', 'th-')) and btype in ('std', 'discont', 'bubble', 'bernstein', 'lagrange') and kind in ('tri', 'simplex3', 'mixed', 'rect', 'line') and len(topo) >= 2:
+        # a selection of the elements: the sub-topology inherits the vertex (node) numbers of the whole mesh, which are then no longer contiguous
+        idx = sorted({i % len(topo) for i in case['subset']})
+        if len(idx) < len(topo):
+            topo = topo[numpy.array(idx)]
+            info['subset'] = True; info['nontrivial'] = True
     if btype.startswith(('h-', 'th-')):
         for sel in case['hier']:
             if len(topo) > 40: break
@@ -120,7 +129,7 @@ def make(case):
     except (NotImplementedError, KeyError) as e:
         raise Discard('basis-not-available')
     except AttributeError as e:
-        if 'basis_' in str(e): raise Discard('basis-not-available')
+        if 'basis_' in str(e) or (info.get('subset') and 'connectivity' in str(e)): raise Discard('basis-not-available')     # an element selection of a structured mesh has no neighbour table for the C0 construction
         raise
     if case['mask'] and len(basis) >= 2:
         idx = numpy.arange(0, len(basis), 2) if case['mask'] == 'even' else numpy.arange(max(1, len(basis) // 2))
@@ -170,7 +179,10 @@ def check(case, rec):
                 raise Violation('dof-count', f'{btype} degree {p_} on rectilinear({ext}, periodic={[d for d, pr in enumerate(per) if pr]}) has {ndofs} functions, the mesh has {expected} nodes', where='dof-count:' + btype)
             rec.label('dof-count-checked')
         smp = topo.sample('bezier', 3) if topo.ndims < 3 else topo.sample('gauss', 2)
-        vals = numpy.asarray(smp.eval(basis))
+        try:
+            vals = numpy.asarray(smp.eval(basis))
+        except Exception as e:
+            raise Violation('eval-raised', f'{btype} {kwargs} on {case["kind"]}{" (element subset)" if info.get("subset") else ""}: evaluating the basis raised {type(e).__name__}: {str(e)[:200]}', where='eval-raised:' + btype + ':' + type(e).__name__)
         if vals.shape[1:] != (ndofs,):
             raise Violation('shape', f'evaluated basis has shape {vals.shape}, len(basis)={ndofs}', where='shape')
         support = [set() for _ in range(ndofs)]
@@ -240,6 +252,20 @@ def check(case, rec):
                 if len({int(parts[i]) for i in sj}) > 1:
                     raise Violation('partition-basis', f'clipped function {j} has support in parts {sorted({int(parts[i]) for i in sj})}', where='partition:support')
             rec.label('partition-basis-checked')
+        # no function without support; the coordinate functions are in the span of every basis of degree >= 1 that is complete on its topology
+        empty = [d for d in range(ndofs) if not support[d]]
+        if empty:
+            raise Violation('empty-support', f'{btype} {kwargs} on {case["kind"]}{" (element subset)" if info.get("subset") else ""}: functions {empty[:6]} are in no element\'s get_dofs (ndofs {ndofs}, {nel} elements)', where='empty-support:' + btype)
+        if base in ('std', 'bubble', 'bernstein', 'lagrange', 'spline', 'discont') and kwargs.get('degree', 1) >= 1 and ndofs and nel <= 80 \
+                and case['kind'] not in ('periodic', 'periodic-small', 'multipatch') and not info.get('masked') and not info.get('removedofs') and not info.get('trimmed') and 'knotvalues' not in kwargs:      # nonuniform knot values reparametrise the elements: the mesh coordinate is then not a spline
+            gs = topo.sample('gauss', 2 * kwargs.get('degree', 1) + 1)
+            B = numpy.asarray(gs.eval(basis)); X = numpy.asarray(gs.eval(x))
+            T = numpy.concatenate([numpy.ones((len(X), 1)), X.reshape(len(X), -1)], axis=1)
+            coef, *_ = numpy.linalg.lstsq(B, T, rcond=None)
+            resid = abs(B @ coef - T).max()
+            if resid > 1e-9 * (1 + abs(T).max()):
+                raise Violation('linear-reproduction', f'{btype} {kwargs} on {case["kind"]}{" (element subset)" if info.get("subset") else ""}: 1 and the coordinates are not in the span of the basis (residual {resid:.3e})', where='linear-reproduction:' + btype)
+            rec.label('linears-in-span')
         # dof -> elements map is the inverse
         for d in range(ndofs):
             s = set(numpy.asarray(basis.get_support(d)).tolist())
@@ -290,6 +316,7 @@ def check(case, rec):
                         rec.label('continuity:discontinuous-spline')
     rec.nontrivial = bool(info['nontrivial'])
     rec.label('btype:' + btype, 'mesh:' + case['kind'])
+    if info.get('subset'): rec.label('element-subset')
     if info['levels']: rec.label('levels:%d' % info['levels'])
     for k in ('mults', 'continuity', 'removedofs', 'masked', 'trimmed'):
         if info.get(k) is not None and info.get(k) is not False: rec.label('param:' + k)
